@@ -17,6 +17,8 @@ CONSTANTS
   LiqUnits = {640, 1280}
   Amounts = {1, 7, 40}
   StartGrowth <- MCStartGrowth
+  Limits <- MCNoLimits
+  Thresholds <- MCVacuous
   MaxOps = 5
 CHECK_DEADLOCK FALSE
 VIEW viewL
